@@ -1,5 +1,5 @@
 (* C11 property theorems only. *)
-From V Require Import lib.Verdict C11.Model C11.Proofs C11.ProofsKey C11.ProofsCache C11.ProofsMisc.
+From V Require Import lib.Verdict C11.Model C11.Proofs C11.ProofsKey C11.ProofsCache C11.ProofsMisc C11.ProofsKube.
 Open Scope string_scope.
 
 (* ---- identity binding (auth.go) *)
@@ -13,6 +13,13 @@ Theorem C11_identity_bound : forall en cns csa ids v,
   (cns <> "" -> id_ns v = cns) /\ (csa <> "" -> id_sa v = csa).
 Proof. exact authorize_bound. Qed.
 Print Assumptions C11_identity_bound.
+
+(* ... where the claimed namespace is the node's metadata namespace whenever it sends one. *)
+Theorem C11_identity_bound_metadata : forall en mns dns csa ids v,
+  authorize en (config_namespace mns dns) csa ids = AuthAccepted (Some v) ->
+  mns <> "" -> id_ns v = mns.
+Proof. exact authorize_bound_metadata. Qed.
+Print Assumptions C11_identity_bound_metadata.
 
 (* With the check on, an authenticated stream none of whose identities matches the claim is refused. *)
 Theorem C11_identity_mismatch_denied : forall en cns csa l,
@@ -123,6 +130,25 @@ Theorem C11_never_across_namespaces : forall w ops p i names r e cl ns name,
 Proof. exact never_across_namespaces. Qed.
 Print Assumptions C11_never_across_namespaces.
 
+(* ---- the SubjectAccessReview-backed Authorize (kube/secrets.go) *)
+
+(* Without a cached answer, Authorize succeeds exactly for a granted (namespace, service account). *)
+Theorem C11_kube_authorize_exact : forall grants sa ns,
+  fst (kube_authorize grants [] sa ns) = true <-> In (ns, sa) grants.
+Proof. exact kube_authorize_fresh. Qed.
+Print Assumptions C11_kube_authorize_exact.
+
+(* Over every history of RBAC changes and Authorize calls on one controller (within one cache TTL
+   window), a positive answer for a colon-free namespace means that exact (namespace, SA) pair was
+   granted at some point of the history.  (Revocation is seen only when the cache entry expires:
+   time is not modelled.) *)
+Theorem C11_kube_authorize_history_partial : forall grants ops,
+  forallb (fun g => no_colon (fst g)) (ever_granted grants ops) = true ->
+  Forall2 (fun c b => b = true -> no_colon (snd c) = true -> In (snd c, fst c) (ever_granted grants ops))
+          (kcalls ops) (kube_run grants [] ops).
+Proof. exact kube_run_sound. Qed.
+Print Assumptions C11_kube_authorize_history_partial.
+
 (* ---- the hypotheses are satisfiable and the statements are not vacuous: an authorised gateway gets
    its key, the same name is then refused to an unauthorised twin, a foreign namespace and an
    unauthenticated proxy although the entry sits in the shared cache *)
@@ -148,6 +174,11 @@ Example C11_example_history :
   /\ cache_get (cache_key {| sr_type := TKube; sr_name := "tls"; sr_ns := "a"; sr_rn := "kubernetes://tls"; sr_cluster := "c1" |} "")
                (run_cache ex_world [] ex_ops) = Some ("kubernetes://tls", CTls ("c1", "a", "tls")).
 Proof. vm_compute. auto. Qed.
+
+Example C11_example_kube :
+  kube_run [("a", "gw")] [] [KCall "gw" "a"; KCall "default" "a"; KCall "gw" "b"; KSet []; KCall "gw" "a"; KCall "default" "a"]
+  = [true; false; false; true; false].
+Proof. vm_compute. reflexivity. Qed.
 
 Example C11_example_identity :
   authorize true "a" "gw" (Some ["spiffe://cluster.local/ns/b/sa/gw"; "spiffe://cluster.local/ns/a/sa/gw"])
